@@ -559,6 +559,12 @@ def handlers(emit, repo):
                     try:
                         m, r, lo = rg.gen_rnd_board(seed_of(p), p["length"], p["width"], pval(p["lt"]), p["maxr"], p["fd"])
                         emit({"e": op["e"], "p": p, "ok": True, "etype": "", "board": board_obs(m, r, lo)})
+                        # the board now belongs to the caller, who edits it (a hand-tuned variant of
+                        # a generated board); the next generation must not see these edits
+                        for grid in (m, r, lo):
+                            for row in grid:
+                                row[:] = [97] * (len(row) + 1)
+                            del grid[1:]
                     except Exception as exc:
                         emit({"e": op["e"], "p": p, "ok": False, "etype": type(exc).__name__,
                               "board": {"moves": [], "rewards": [], "loose": []}})
